@@ -45,6 +45,8 @@ CONSTANTS Pts,        \* sequence of candidate points, all of the same dimension
                       \* (dyadic, exact in floats) wherever a filling verdict is decided; other
                       \* denominators (0.3, 0.35, ...) only in layout-free configurations, where
                       \* the filling is exercised through the closure of with_automatic_layout
+          NMin, TMin, \* smallest number of atoms (registers without layout) / of traps
+          AllTraps,   \* TRUE: a register defined from a layout fills every trap (atoms = traps)
           Prefix,     \* TRUE: the registers are the prefixes {1..k} of Pts (k = 1..NMax) instead
                       \* of every subset (closure configurations with many atoms)
           ConnN,      \* numbers of atoms asked from Register.max_connectivity ({} = none)
@@ -123,9 +125,10 @@ Regs ==
   IF Prefix
   THEN {[a |-> 1..k, t |-> {}] : k \in 1..NMax}
   ELSE IF TMax = 0
-  THEN {[a |-> a, t |-> {}] : a \in {s \in SUBSET Idx : Cardinality(s) \in 1..NMax}}
-  ELSE UNION {{[a |-> a, t |-> t] : a \in {s \in SUBSET t : Cardinality(s) \in 1..NMax}} :
-              t \in {s \in SUBSET Idx : Cardinality(s) \in 1..TMax
+  THEN {[a |-> a, t |-> {}] : a \in {s \in SUBSET Idx : Cardinality(s) \in NMin..NMax}}
+  ELSE UNION {{[a |-> a, t |-> t] :
+                 a \in IF AllTraps THEN {t} ELSE {s \in SUBSET t : Cardinality(s) \in NMin..NMax}} :
+              t \in {s \in SUBSET Idx : Cardinality(s) \in TMin..TMax
                                          /\ DistinctPts(s) /\ OnTrapGrid(s)}}
 
 (* ---------------------------------------------------------------------- *)
